@@ -59,7 +59,7 @@ def load_nakamuracorresp(filename: PathLike) -> Tuple[Union[np.ndarray, list]]:
         ("refPitch", "i"),
         ("refOnvel", "i"),
     ]
-    result = np.loadtxt(filename, dtype=dtype, comments="//")
+    result = np.atleast_1d(np.loadtxt(filename, dtype=dtype, comments="//"))
 
     align_valid = result["alignID"] != "*"
     n_align = sum(align_valid)
@@ -144,7 +144,7 @@ def load_nakamuramatch(filename: PathLike) -> Tuple[Union[np.ndarray, list]]:
     dtype_missing = [("refOntime", "f"), ("refID", "U256")]
     pattern = r"//Missing\s(\d+)\t(.+)"
     # load alignment notes
-    result = np.loadtxt(filename, dtype=dtype, comments="//")
+    result = np.atleast_1d(np.loadtxt(filename, dtype=dtype, comments="//"))
     # load missing notes
     missing = np.fromregex(filename, pattern, dtype=dtype_missing)
 
